@@ -43,6 +43,7 @@ def run(repo: Repo, tier: str, res: CheckResult, seed: int = 0) -> None:
     predicate_partition(repo, m, res)
     member_key_lookup(repo, m, res)
     silent_loss(repo, m, res)
+    member_truthiness(repo, m, res)
     res.assumptions = list(ASSUMPTIONS)
 
 
@@ -924,3 +925,43 @@ def silent_loss(repo: Repo, m: ModuleInfo, res: CheckResult) -> None:
                             "the member-name-list dumper emits the names of the eligible cases contained in the value and returns; "
                             "bits of the value that no eligible case names are dropped silently, the list loads back as another "
                             "value", f.lineno))
+
+
+def member_truthiness(repo: Repo, m: ModuleInfo, res: CheckResult) -> None:
+    """A member that was looked up must be told from "not found" by KeyError / identity with None or a sentinel: members can
+    be falsy (IntEnum / IntFlag member 0, a str-mixin member '', an enum defining __bool__, the zero flag), a truthiness test
+    rejects their correct representation."""
+    n = 0
+    for ci in m.classes.values():
+        if not (repo.is_subclass(ci, "BaseEnumProvider") or repo.is_subclass(ci, "BaseFlagProvider")):
+            continue
+        for mname, fn in ci.methods.items():
+            for cl in [f for f in ast.walk(fn) if isinstance(f, ast.FunctionDef) and f is not fn]:
+                looked: Set[str] = set()
+                for a in ast.walk(cl):
+                    if isinstance(a, ast.Assign) and len(a.targets) == 1 and isinstance(a.targets[0], ast.Name):
+                        v = a.value
+                        is_lookup = isinstance(v, ast.Subscript) or (
+                            isinstance(v, ast.Call) and (norm(v.func).endswith("get") or norm(v.func).endswith(".get")
+                                                         or (isinstance(v.func, ast.Name) and v.func.id in ("enum", "getattr"))))
+                        if is_lookup:
+                            looked.add(a.targets[0].id)
+                n += 1
+                res.evaluated(f"truthiness:{ci.name}.{mname}.{cl.name}", bool(looked))
+                for t in ast.walk(cl):
+                    tests: List[ast.expr] = []
+                    if isinstance(t, (ast.If, ast.While, ast.IfExp)):
+                        tests.append(t.test)
+                    elif isinstance(t, ast.BoolOp):
+                        tests += t.values
+                    elif isinstance(t, ast.Assert):
+                        tests.append(t.test)
+                    for e in tests:
+                        if isinstance(e, ast.UnaryOp) and isinstance(e.op, ast.Not):
+                            e = e.operand
+                        if isinstance(e, ast.Name) and e.id in looked:
+                            res.add(Finding("C18", "ENUM.member-truthiness", m.rel, f"{ci.name}.{mname}.{cl.name}", norm(t)[:80].split("\n")[0],
+                                            f"`{e.id}` holds a looked-up member and is tested for truth: a falsy member (IntEnum / IntFlag value "
+                                            "0, a str-mixin member '', the zero flag) is treated as not found and its correct "
+                                            "representation is rejected", getattr(t, "lineno", 0)))
+    res.count("ENUM.loader-dumper-closures", n, 8)
